@@ -3,8 +3,9 @@
 // oracle for the property.
 //
 // op line (one distributed case):
-//     np=<P> num=<d|c|s|l> ord=<a|f> del=<m|r> [re=<0|s|d>] : <g>=<h>,<h>,...;<g>=<h>,...;...
+//     np=<P> num=<d|c|s|l> ord=<a|f> del=<m|r> [re=<0|s|d>] [comm=<w|d|r0.r1...>] [glob=<i|l>] : <g>=<h>,<h>,...;<g>=<h>,...;...
 //   one segment per global index g (decimal, distinct); holder token <h> = <rank><attr><status>
+//     rank    the process as numbered by the communicator the RemoteIndices live on (see comm=)
 //     attr    o|v|c        owner / overlap / copy  (enum values 0/1/2)
 //     status  k  held at rebuild time and kept
 //             d  held at rebuild time, deleted locally before the sync (index set entry + own remote entries)
@@ -26,6 +27,16 @@
 //        re (second round, default 0): s = sync again with the same IndicesSyncer object; d = first delete the status-d
 //        copies again (those the first sync restored), then sync with a new IndicesSyncer object.  Nothing
 //        synchronises the processes between the two rounds.
+//        comm (default w): the communicator handed to RemoteIndices (and so to the syncer).  P is always the size of
+//            MPI_COMM_WORLD.  w = MPI_COMM_WORLD itself; d = MPI_Comm_dup of it (same numbering, other context);
+//            r0.r1...rk-1 (distinct world ranks) = MPI_Comm_split: the communicator consists of exactly these world
+//            processes and world process r_i has rank i in it, so the numbering differs from MPI_COMM_WORLD and with
+//            k < P it is a proper sub-communicator; holder ranks must then be < k.  The remaining world processes
+//            form a second communicator on which they run the same operations with empty index sets at the same
+//            time.  The answer r<i>{..} is that of the process with rank i in the communicator (for i >= k: of the
+//            (i-k)-th remaining process), i.e. the line is independent of where the communicator puts a process.
+//        glob (default i): the global index type of the index set: i = int (value g), l = long (value g*(2^32+3), so
+//            that neither half of the 64 bits alone identifies the index)
 // answer of one rank:  A(<state before the first sync>) B(<state after it>) [C(<state after the second sync>)]
 //   state = I[<g><attr>:<local>,...] N<q>[<g><ownattr><remoteattr>@<position in I>,...] ... [S<0|1>] [K<calls> F<free slots> X<next fresh>]
 //   (S only after a sync, K F X only for num=s|l)
@@ -53,11 +64,18 @@ using namespace dv;
 
 enum Attr { owner = 0, overlap = 1, copy = 2 };
 typedef Dune::ParallelLocalIndex<Attr> LI;
-typedef Dune::ParallelIndexSet<int, LI, 3> PIS;  // chunk size 3: every resize moves the pairs
-typedef Dune::RemoteIndices<PIS> RI;
-typedef RI::RemoteIndexList RIL;
-typedef Dune::RemoteIndex<int, Attr> RIdx;
-typedef Dune::SLList<std::pair<int, Attr>, RI::Allocator> GList;
+
+// the global index value that stands for the integer g of the op line
+template <class G> struct GMap;
+template <> struct GMap<int> {
+  static int to(int g) { return g; }
+  static bool from(int v, int& g) { g = v; return true; }
+};
+template <> struct GMap<long> {
+  static const long F = 4294967296L + 3;
+  static long to(int g) { return (long)g * F; }
+  static bool from(long v, int& g) { if (v % F != 0 || v / F > 1000000 || v / F < -1000000) return false; g = (int)(v / F); return true; }
+};
 
 static const char* ATTR = "ovc";
 static std::string attrStr(int a) { return (a >= 0 && a < 3) ? std::string(1, ATTR[a]) : "?" + std::to_string(a); }
@@ -65,6 +83,18 @@ static std::string attrStr(int a) { return (a >= 0 && a < 3) ? std::string(1, AT
 struct Tok { int rank, g, attr; char st; };
 struct Case {
   int np = 0;
+  char comm = 'w';            // w world, d dup, l list of world ranks
+  std::vector<int> members;   // comm=l: world rank of communicator rank i
+  char glob = 'i';
+  int active() const { return comm == 'l' ? (int)members.size() : np; }   // size of the communicator of the case
+  // role = number under which a world process appears in the op line and in the answer
+  int roleOf(int wrank) const {
+    if (comm != 'l') return wrank;
+    int others = 0;
+    for (size_t i = 0; i < members.size(); ++i) if (members[i] == wrank) return (int)i;
+    for (int w = 0; w < wrank; ++w) if (std::find(members.begin(), members.end(), w) == members.end()) ++others;
+    return (int)members.size() + others;
+  }
   char num = 'd';   // d default numberer, c pure user numberer, s|l numberer objects with state (counter / free list)
   bool stateful() const { return num == 's' || num == 'l'; }
   bool fixed = false;
@@ -79,14 +109,30 @@ static Case parse(const std::string& line) {
   size_t sep = line.find(" : ");
   std::string head = sep == std::string::npos ? line : line.substr(0, sep);
   std::string body = sep == std::string::npos ? "" : line.substr(sep + 3);
-  bool hn = false, hnum = false, hord = false, hdel = false, hre = false;
+  bool hn = false, hnum = false, hord = false, hdel = false, hre = false, hcomm = false, hglob = false;
   for (auto& w : words(head)) {
     if (w.rfind("np=", 0) == 0 && !hn) { c.np = std::atoi(w.c_str() + 3); hn = true; }
     else if ((w == "num=d" || w == "num=c" || w == "num=s" || w == "num=l") && !hnum) { c.num = w[4]; hnum = true; }
     else if (w == "ord=a" && !hord) { c.fixed = false; hord = true; }
     else if (w == "ord=f" && !hord) { c.fixed = true; hord = true; }
     else if ((w == "del=m" || w == "del=r") && !hdel) { c.del = w[4]; hdel = true; }
-    else if ((w == "re=0" || w == "re=s" || w == "re=d") && !hre && hdel) { c.re = w[3]; hre = true; }
+    else if ((w == "re=0" || w == "re=s" || w == "re=d") && !hre && hdel && !hcomm && !hglob) { c.re = w[3]; hre = true; }
+    else if (w.rfind("comm=", 0) == 0 && !hcomm && hdel && hn && !hglob) {
+      std::string v = w.substr(5);
+      hcomm = true;
+      if (v == "w" || v == "d") c.comm = v[0];
+      else {
+        c.comm = 'l';
+        for (auto& m : split(v, '.')) {
+          if (m.empty() || m.size() > 3) return c;
+          for (char ch : m) if (ch < '0' || ch > '9') return c;
+          int r = std::atoi(m.c_str());
+          if (r >= c.np || std::find(c.members.begin(), c.members.end(), r) != c.members.end()) return c;
+          c.members.push_back(r);
+        }
+      }
+    }
+    else if ((w == "glob=i" || w == "glob=l") && !hglob && hdel) { c.glob = w[5]; hglob = true; }
     else return c;
   }
   if (!hn || !hnum || !hord || !hdel || c.np < 1 || c.np > 64 || (c.fixed && c.num == 'd')) return c;
@@ -113,7 +159,7 @@ static Case parse(const std::string& line) {
       t.attr = (int)(ap - ATTR);
       t.st = h[h.size() - 1];
       if (!std::strchr("kdan", t.st) || !t.st) return c;
-      if (t.rank >= c.np || !ranks.insert(t.rank).second) return c;
+      if (t.rank >= c.active() || !ranks.insert(t.rank).second) return c;
       c.toks.push_back(t);
     }
   }
@@ -201,8 +247,29 @@ static World originalState(const Case& c) {
 }
 
 // ---------------------------------------------------------------------------------------------------------
+// everything that touches the real classes, for one global index type G
+template <class G>
+struct Impl {
+typedef Dune::ParallelIndexSet<G, LI, 3> PIS;  // chunk size 3: every resize moves the pairs
+typedef Dune::RemoteIndices<PIS> RI;
+typedef typename RI::RemoteIndexList RIL;
+typedef Dune::RemoteIndex<G, Attr> RIdx;
+typedef Dune::SLList<std::pair<G, Attr>, typename RI::Allocator> GList;
+typedef typename PIS::IndexPair IPair;
+
+static G toG(int g) { return GMap<G>::to(g); }
+// the op-line integer of a global index value; values that stand for no integer are reported and mapped to a
+// number no op line uses
+static int fromG(const G& v, std::ostringstream& bad) {
+  int g;
+  if (GMap<G>::from(v, g)) return g;
+  bad << " global index value " << v << " stands for no index of the case;";
+  return 7000000 + (int)(((unsigned long)v) % 999983ul);
+}
+static int fromG(const G& v) { std::ostringstream dummy; return fromG(v, dummy); }
+
 struct CustomNumberer {
-  std::size_t operator()(const int& g) { return (std::size_t)(1000 + g); }
+  std::size_t operator()(const G& g) { return (std::size_t)(1000 + fromG(g)); }
 };
 // numberer object with state: recycles the slots of its free list (front first), then hands out fresh numbers
 struct SlotNumberer {
@@ -211,7 +278,7 @@ struct SlotNumberer {
   std::size_t calls = 0;
   std::set<std::size_t> pool;  // every number it may ever hand out from the free list (for the oracle)
   std::size_t first = 2000;    // first fresh number
-  std::size_t operator()(const int&) {
+  std::size_t operator()(const G&) {
     ++calls;
     if (!free.empty()) { std::size_t v = free.front(); free.pop_front(); return v; }
     return next++;
@@ -220,18 +287,20 @@ struct SlotNumberer {
 };
 
 struct ModHolder {
-  Dune::RemoteIndexListModifier<PIS, RI::Allocator, true> m;  // must be constructed in place (its copy shares iterators)
-  ModHolder(RI& ri, int q) : m(ri.getModifier<true, true>(q)) {}
+  Dune::RemoteIndexListModifier<PIS, typename RI::Allocator, true> m;  // must be constructed in place (its copy shares iterators)
+  ModHolder(RI& ri, int q) : m(ri.template getModifier<true, true>(q)) {}
 };
 
 // delete the index set entries with a global index in gs together with the remote entries that refer to them
-static void deleteLocalCopies(PIS& is, RI& ri, const std::set<int>& gs, char method) {
-  if (gs.empty()) return;
+static void deleteLocalCopies(PIS& is, RI& ri, const std::set<int>& gs0, char method) {
+  if (gs0.empty()) return;
+  std::set<G> gs;
+  for (int g : gs0) gs.insert(toG(g));
   if (method == 'm') {
     std::list<ModHolder> mods;
-    std::vector<std::set<int>> has;
+    std::vector<std::set<G>> has;
     for (auto it = ri.begin(); it != ri.end(); ++it) {
-      std::set<int> hg;
+      std::set<G> hg;
       for (auto e = it->second.first->begin(); e != it->second.first->end(); ++e) hg.insert(e->localIndexPair().global());
       has.push_back(hg);
     }
@@ -287,41 +356,42 @@ static std::string observe(const Case& c, PIS& is, RI& ri, const RankState& w, b
   {
     os << "I[";
     int k = 0;
-    bool first = true, havePrev = false;
-    int prev = 0;
+    bool first = true, havePrevG = false;
+    G prevG = G();
     for (auto it = is.begin(); it != is.end(); ++it, ++k) {
-      const PIS::IndexPair& pr = *it;
+      const IPair& pr = *it;
       ob.posOf[&pr] = k;
       if (!first) os << ",";
       first = false;
-      auto e = w.held.find(pr.global());
+      const int pg = fromG(pr.global(), bad);
+      auto e = w.held.find(pg);
       // a number assigned by a numberer object depends on the processing order: not printed
-      bool hide = c.stateful() && e != w.held.end() && w.local.at(pr.global()) < 0;
-      os << pr.global() << attrStr(pr.local().attribute()) << ":" << localStr(pr.local().local(), hide);
-      if (havePrev && !(prev < pr.global())) bad << " index set not strictly ascending at " << pr.global() << ";";
-      prev = pr.global();
-      havePrev = true;
-      if (e == w.held.end()) bad << " index " << pr.global() << " present but nobody held or announced it;";
+      bool hide = c.stateful() && e != w.held.end() && w.local.at(pg) < 0;
+      os << pg << attrStr(pr.local().attribute()) << ":" << localStr(pr.local().local(), hide);
+      if (havePrevG && !(prevG < pr.global())) bad << " index set not strictly ascending at " << pg << ";";
+      prevG = pr.global();
+      havePrevG = true;
+      if (e == w.held.end()) bad << " index " << pg << " present but nobody held or announced it;";
       else {
         if (e->second != (int)pr.local().attribute())
-          bad << " index " << pr.global() << " has attribute " << attrStr(pr.local().attribute()) << " expected " << attrStr(e->second) << ";";
-        long wl = w.local.at(pr.global());
+          bad << " index " << pg << " has attribute " << attrStr(pr.local().attribute()) << " expected " << attrStr(e->second) << ";";
+        long wl = w.local.at(pg);
         std::size_t got = pr.local().local();
         if (wl < 0 && c.stateful()) {
           // a number handed out by the numberer object: from its pool, never twice
           if (!numb.mayHaveHandedOut(got))
-            bad << " index " << pr.global() << " local number " << got << " was not handed out by the numberer (" << numb.calls << " calls);";
+            bad << " index " << pg << " local number " << got << " was not handed out by the numberer (" << numb.calls << " calls);";
           if (!counted.insert(got).second) bad << " local number " << got << " given to two indices;";
         } else {
           std::size_t expectLocal = wl >= 0 ? (std::size_t)wl
-                                    : (c.num == 'c' ? (std::size_t)(1000 + pr.global()) : std::numeric_limits<std::size_t>::max());
+                                    : (c.num == 'c' ? (std::size_t)(1000 + pg) : std::numeric_limits<std::size_t>::max());
           if (got != expectLocal)
-            bad << " index " << pr.global() << " local number " << localStr(got, false) << " expected " << localStr(expectLocal, false) << ";";
+            bad << " index " << pg << " local number " << localStr(got, false) << " expected " << localStr(expectLocal, false) << ";";
         }
       }
-      if (pr.local().state() != Dune::VALID) bad << " index " << pr.global() << " not in state VALID;";
-      if (!pr.local().isPublic()) bad << " index " << pr.global() << " lost its public flag;";
-      ob.gotHeld[pr.global()]++;
+      if (pr.local().state() != Dune::VALID) bad << " index " << pg << " not in state VALID;";
+      if (!pr.local().isPublic()) bad << " index " << pg << " lost its public flag;";
+      ob.gotHeld[pg]++;
     }
     os << "]";
     for (auto& e : w.held)
@@ -337,7 +407,7 @@ static std::string observe(const Case& c, PIS& is, RI& ri, const RankState& w, b
     if (wk == w.known.end()) bad << " neighbour " << q << " exists but no index is shared with it;";
     std::map<int, int> got;
     bool first = true, havePrev = false;
-    int prev = 0;
+    G prev = G();
     for (auto e = nb->second.first->begin(); e != nb->second.first->end(); ++e) {
       if (!first) os << ",";
       first = false;
@@ -346,16 +416,16 @@ static std::string observe(const Case& c, PIS& is, RI& ri, const RankState& w, b
       // RemoteIndex::operator== compares the pointer and the attribute
       auto po = ob.posOf.end();
       for (auto cand = ob.posOf.begin(); cand != ob.posOf.end(); ++cand)
-        if (re == RIdx(re.attribute(), static_cast<const PIS::IndexPair*>(cand->first))) { po = cand; break; }
+        if (re == RIdx(re.attribute(), static_cast<const IPair*>(cand->first))) { po = cand; break; }
       if (po == ob.posOf.end()) {
         os << "?" << attrStr(re.attribute());
         bad << " neighbour " << q << ": entry does not reference an element of the index set;";
         continue;
       }
-      int g = re.localIndexPair().global();
+      int g = fromG(re.localIndexPair().global(), bad);
       os << g << attrStr(re.localIndexPair().local().attribute()) << attrStr(re.attribute()) << "@" << po->second;
-      if (havePrev && !(prev < g)) bad << " neighbour " << q << ": list not strictly ascending at " << g << ";";
-      prev = g;
+      if (havePrev && !(prev < re.localIndexPair().global())) bad << " neighbour " << q << ": list not strictly ascending at " << g << ";";
+      prev = re.localIndexPair().global();
       havePrev = true;
       got[g] = re.attribute();
       if (wk != w.known.end()) {
@@ -403,9 +473,9 @@ static void checkRestored(const Case& c, int rank, RI& ri, const Observed& ob, c
         for (auto e = nb->second.first->begin(); e != nb->second.first->end(); ++e) {
           bool valid = false;
           for (auto& cand : ob.posOf)
-            if (*e == RIdx(e->attribute(), static_cast<const PIS::IndexPair*>(cand.first))) valid = true;
+            if (*e == RIdx(e->attribute(), static_cast<const IPair*>(cand.first))) valid = true;
           if (!valid) continue;
-          if (e->localIndexPair().global() == g && (int)e->attribute() == ok.second.at(g) &&
+          if (e->localIndexPair().global() == toG(g) && (int)e->attribute() == ok.second.at(g) &&
               (int)e->localIndexPair().local().attribute() == o.held.at(g)) found = true;
         }
       if (!found) bad << " [" << tag << "] restore: remote entry (" << ok.first << "," << g << ") not restored;";
@@ -413,14 +483,12 @@ static void checkRestored(const Case& c, int rank, RI& ri, const Observed& ob, c
   }
 }
 
-static Result exec(const std::string& line) {
+// the case as seen by the process with number `rank` of the op line (its rank in `comm` if it is one of the
+// communicator of the case; the other processes have no index and their own communicator)
+static Result run(const Case& c, const std::string& line, MPI_Comm comm, const int rank) {
   Result res;
-  int rank, size;
-  MPI_Comm_rank(MPI_COMM_WORLD, &rank);
-  MPI_Comm_size(MPI_COMM_WORLD, &size);
-  Case c = parse(line);
-  if (!c.ok) { res.impl = "bad-op"; res.oracle = "FAIL unparsable op line"; return res; }
-  if (c.np != size) { res.impl = "ERR:np"; res.oracle = "FAIL op line is for another process count"; return res; }
+  int wrank;
+  MPI_Comm_rank(MPI_COMM_WORLD, &wrank);
 
   std::map<int, std::map<int, int>> D;  // g -> rank -> attr
   for (auto& t : c.toks) D[t.g][t.rank] = t.attr;
@@ -433,11 +501,11 @@ static Result exec(const std::string& line) {
   is.beginResize();
   {
     std::size_t n = 0;
-    for (auto& t : mine) if (t.st == 'k' || t.st == 'd') is.add(t.g, LI(n++, Attr(t.attr), true));
+    for (auto& t : mine) if (t.st == 'k' || t.st == 'd') is.add(toG(t.g), LI(n++, Attr(t.attr), true));
   }
   is.endResize();
-  RI ri(is, is, MPI_COMM_WORLD);
-  ri.rebuild<false>();
+  RI ri(is, is, comm);
+  ri.template rebuild<false>();
 
   // 2a. delete local copies and their remote entries
   std::set<int> delGs;
@@ -451,7 +519,7 @@ static Result exec(const std::string& line) {
     is.beginResize();
     for (auto& t : mine) {
       if (t.st != 'a') continue;
-      is.add(t.g, LI((std::size_t)(500 + t.g), Attr(t.attr), true));
+      is.add(toG(t.g), LI((std::size_t)(500 + t.g), Attr(t.attr), true));
       for (auto nb = ri.begin(); nb != ri.end(); ++nb) {
         auto& holders = D[t.g];
         auto h = holders.find(nb->first);
@@ -460,9 +528,9 @@ static Result exec(const std::string& line) {
         GList& g = gl[nb->first];
         auto rit = rl.beginModify();
         auto git = g.beginModify();
-        while (rit != rl.end() && git->first < t.g) { ++rit; ++git; }
+        while (rit != rl.end() && git->first < toG(t.g)) { ++rit; ++git; }
         rit.insert(RIdx(Attr(h->second)));
-        git.insert(std::make_pair(t.g, Attr(t.attr)));
+        git.insert(std::make_pair(toG(t.g), Attr(t.attr)));
       }
     }
     is.endResize();
@@ -485,7 +553,7 @@ static Result exec(const std::string& line) {
   // arrive in varying orders and fast ranks are already in their next sync while slow ones still receive
   uint64_t jitterSeed = 1469598103934665603ull;
   for (char ch : line) jitterSeed = (jitterSeed ^ (unsigned char)ch) * 1099511628211ull;
-  Rng jitter(jitterSeed * 64 + (uint64_t)rank);
+  Rng jitter(jitterSeed * 64 + (uint64_t)wrank);
   std::unique_ptr<Dune::IndicesSyncer<PIS>> syncer;
   auto doSync = [&]() {
     static const int DELAY[] = {0, 0, 0, 100, 300, 600, 1000, 1500};
@@ -537,7 +605,7 @@ static Result exec(const std::string& line) {
         if (!pre[rank].held.count(ga.first) && !byRank.count(ga.first)) byRank[ga.first] = next++;
     }
     for (auto it = is.begin(); it != is.end(); ++it) {
-      auto e = byRank.find(it->global());
+      auto e = byRank.find(fromG(it->global()));
       if (e != byRank.end() && e->second != it->local().local()) orderDiffers = 1;
     }
   }
@@ -551,8 +619,8 @@ static Result exec(const std::string& line) {
       for (auto& g : delGs) if (want[rank].held.count(g)) gs2.insert(g);
       std::set<int> present;
       for (auto it = is.begin(); it != is.end(); ++it)
-        if (gs2.count(it->global())) {
-          present.insert(it->global());
+        if (gs2.count(fromG(it->global()))) {
+          present.insert(fromG(it->global()));
           if (c.num == 'l') { counting.free.push_back(it->local().local()); counting.pool.insert(it->local().local()); }
         }
       deleteLocalCopies(is, ri, present, c.del);
@@ -569,7 +637,7 @@ static Result exec(const std::string& line) {
   {
     int any = 0;
     MPI_Allreduce(&orderDiffers, &any, 1, MPI_INT, MPI_MAX, MPI_COMM_WORLD);
-    if (rank == 0 && c.num == 's' && !c.fixed) stat(any ? "arrival_order_observed_other_than_rank_order" : "arrival_order_observed_rank_order");
+    if (wrank == 0 && c.num == 's' && !c.fixed) stat(any ? "arrival_order_observed_other_than_rank_order" : "arrival_order_observed_rank_order");
   }
   res.impl = os.str();
   bool trivial = true;
@@ -577,7 +645,7 @@ static Result exec(const std::string& line) {
   if (!bad.str().empty()) res.oracle = "FAIL" + bad.str();
   else res.oracle = trivial ? "ok trivial" : "ok";
 
-  if (rank == 0) {
+  if (wrank == 0) {
     long del = 0, delOwner = 0, add = 0, notheld = 0, restored = 0, newnb = 0, lost = 0, several = 0, restored2 = 0, newnb2 = 0;
     for (auto& t : c.toks) { del += t.st == 'd'; delOwner += t.st == 'd' && t.attr == 0; add += t.st == 'a'; notheld += t.st == 'n'; }
     for (int p = 0; p < c.np; ++p) {
@@ -635,23 +703,108 @@ static Result exec(const std::string& line) {
     if (c.re == 'd') stat("second_round_delete_and_sync");
     if (c.re != '0') { stat("second_round_indices_inserted", restored2); stat("second_round_new_neighbours", newnb2); }
     if (trivial) stat("trivial");
+    if (c.comm == 'w') stat("comm_world");
+    else if (c.comm == 'd') stat("comm_dup");
+    else {
+      bool identity = true;
+      for (size_t i = 0; i < c.members.size(); ++i) if (c.members[i] != (int)i) identity = false;
+      stat((int)c.members.size() == c.np ? "comm_all_processes_renumbered" : "comm_sub_communicator");
+      if (identity) stat("comm_split_with_world_numbering");
+      // a process that receives an index while its communicator rank differs from its world rank
+      bool hit = false;
+      for (int p = 0; p < c.active(); ++p)
+        if (c.members[p] != p)
+          for (int q = 0; q < c.np; ++q) {
+            auto k = pre[q].known.find(p);
+            if (k != pre[q].known.end() && !k->second.empty()) hit = true;
+          }
+      if (hit) stat("index_announced_to_process_with_other_world_rank");
+    }
+    stat(std::string("global_index_type_") + (c.glob == 'l' ? "long" : "int"));
+  }
+  return res;
+}
+};  // Impl
+
+static Result exec(const std::string& line) {
+  Result res;
+  int wrank, size;
+  MPI_Comm_rank(MPI_COMM_WORLD, &wrank);
+  MPI_Comm_size(MPI_COMM_WORLD, &size);
+  Case c = parse(line);
+  if (!c.ok) { res.impl = "bad-op"; res.oracle = "FAIL unparsable op line"; return res; }
+  if (c.np != size) { res.impl = "ERR:np"; res.oracle = "FAIL op line is for another process count"; return res; }
+  // a case takes milliseconds; a message sent to the wrong process or communicator is never received: do not wait
+  // for the general per-case alarm of runMpi (it is re-armed for the next case there)
+  {
+    unsigned left = alarm(0);
+    alarm(left ? std::min(left, 30u) : 30u);
+  }
+
+  // the communicator of the case
+  MPI_Comm comm = MPI_COMM_WORLD;
+  const int role = c.roleOf(wrank);
+  if (c.comm == 'd') MPI_Comm_dup(MPI_COMM_WORLD, &comm);
+  else if (c.comm == 'l') {
+    bool member = role < c.active();
+    MPI_Comm_split(MPI_COMM_WORLD, member ? 0 : 1, member ? role : wrank, &comm);
+    int crank, csize;
+    MPI_Comm_rank(comm, &crank);
+    MPI_Comm_size(comm, &csize);
+    if (crank != (member ? role : role - c.active()) || csize != (member ? c.active() : c.np - c.active())) {
+      res.impl = "HARNESS";
+      res.oracle = "FAIL harness: MPI_Comm_split did not give the requested numbering";
+      return res;
+    }
+  }
+  res = c.glob == 'l' ? Impl<long>::run(c, line, comm, role) : Impl<int>::run(c, line, comm, role);
+  if (c.comm != 'w') MPI_Comm_free(&comm);
+
+  // answer number i of the line is that of the process with role i: hand it to world process i
+  if (c.comm == 'l') {
+    auto impls = allgatherStrings(res.impl);
+    auto oracles = allgatherStrings(res.oracle);
+    for (int w = 0; w < size; ++w)
+      if (c.roleOf(w) == wrank) { res.impl = impls[w]; res.oracle = oracles[w]; }
   }
   return res;
 }
 
 // ---------------------------------------------------------------------------------------------------------
 static std::string gen(Rng& r, long, const Args& a) {
-  int size;
-  MPI_Comm_size(MPI_COMM_WORLD, &size);
+  int wsize;
+  MPI_Comm_size(MPI_COMM_WORLD, &wsize);
   bool thorough = a.tier == "thorough";
   std::ostringstream os;
+  // the communicator: MPI_COMM_WORLD, a duplicate, all processes renumbered, or some of them in any order
+  std::string commTok;
+  int size = wsize;
+  {
+    int ck = (int)r.below(10);
+    if (ck < 3) commTok = r.coin(1, 3) ? "comm=w" : "";
+    else if (ck < 4) commTok = "comm=d";
+    else {
+      std::vector<int> ws;
+      for (int w = 0; w < wsize; ++w) ws.push_back(w);
+      for (int i = wsize - 1; i > 0; --i) std::swap(ws[i], ws[r.below(i + 1)]);
+      if (ck >= 7 && wsize >= 2) size = wsize - 1 - (wsize >= 4 && r.coin(1, 3) ? 1 : 0);
+      if (ck == 9 && r.coin()) std::sort(ws.begin(), ws.begin() + size);   // order of the world kept (a prefix if size == wsize)
+      ws.resize(size);
+      std::vector<std::string> ms;
+      for (int w : ws) ms.push_back(std::to_string(w));
+      commTok = "comm=" + join(ms.begin(), ms.end(), ".");
+    }
+  }
+  bool globLong = r.coin(1, 3);
   int nk = (int)r.below(10);
   char num = nk < 3 ? 'd' : nk < 5 ? 'c' : nk < 8 ? 's' : 'l';
   bool fixed = num != 'd' && r.coin(1, num == 'c' ? 3 : 2);
   int rk = (int)r.below(20);
   char re = rk < 12 ? '0' : rk < 15 ? 's' : 'd';
-  os << "np=" << size << " num=" << num << " ord=" << (fixed ? "f" : "a") << " del=" << (r.coin() ? "m" : "r");
+  os << "np=" << wsize << " num=" << num << " ord=" << (fixed ? "f" : "a") << " del=" << (r.coin() ? "m" : "r");
   if (re != '0' || r.coin(1, 8)) os << " re=" << re;
+  if (!commTok.empty()) os << " " << commTok;
+  if (globLong || r.coin(1, 8)) os << " glob=" << (globLong ? "l" : "i");
   os << " : ";
   int maxG = thorough ? 14 : 9;
   int nG = (int)r.below(maxG + 1);
